@@ -38,6 +38,9 @@ def cells():
         if hist == "hup-rebind" and bind != "unix":
             continue
         yield {"user": u, "group": g, "initgroups": ig, "history": hist, "bind": bind}
+    # the master's own primary group already equals the configured one (e.g. `sg nogroup gunicorn ...`), supplementary groups differ
+    for hist, bind in itertools.product(["kill", "hup"], ["tcp", "unix"]):
+        yield {"user": "nobody", "group": "nogroup", "initgroups": True, "history": hist, "bind": bind, "master_gid": 65534}
 
 
 def extra_cases(tier, seed, shard, nshards):
@@ -46,7 +49,7 @@ def extra_cases(tier, seed, shard, nshards):
     if tier == "quick":
         picked, seen = [], set()
         for c in cs:
-            ks = [("s", c["user"], c["group"], c["initgroups"]), ("h", c["history"], c["bind"], c["initgroups"])]
+            ks = [("s", c["user"], c["group"], c["initgroups"], c.get("master_gid")), ("h", c["history"], c["bind"], c["initgroups"])]
             if any(k not in seen for k in ks):
                 seen.update(ks)
                 picked.append(c)
@@ -78,7 +81,7 @@ def run_case(case):
     conf = []
     bind_in_conf = case["history"] == "hup-rebind"
     srv = renv.Server(kind=kind, workers=2, bind=case["bind"], graceful=2, timeout=2, threads=2 if kind == "gthread" else None,
-                      extra=extra, conf_lines=conf, bind_in_conf=bind_in_conf)
+                      extra=extra, conf_lines=conf, bind_in_conf=bind_in_conf, pre_gid=case.get("master_gid"))
     vio = []
 
     def V(clause, sig, observed=None, expected=None):
@@ -115,7 +118,7 @@ def run_case(case):
                 V("groups", "worker-supplementary-groups-wrong:" + label, {"pid": p, "groups": ids["groups"]}, want_groups)
                 return ws
         mids = renv.status_ids(master)
-        if mids and (mids["uid"] != [0] * 4 or mids["gid"] != [0] * 4):
+        if mids and (mids["uid"] != [0] * 4 or mids["gid"] != [case.get("master_gid", 0)] * 4):
             V("master-identity", "master-identity-changed:" + label, mids, "0/0")
         r, data, err = srv.request("/pid", timeout=5)
         if r is None or not (r.ok and r.status == 200):
